@@ -18,7 +18,7 @@ RULE = ('values: text over ASCII / Latin-1 / BMP / astral planes with CR, LF, NU
         'http.client.responses for the blacklist. Non-trivial = the value contains a control character or a non-ASCII character or is '
         'not a str; distinct = distinct (entry point, class, repr(value)).')
 PYOPT = {'quick': 1, 'thorough': 1}     # one unit of every kind is also served by an interpreter started with -O (assert statements compiled out)
-REQUIRED = ['units_run_under_python_-O', 'length_sweep_cases', 'multi_valued_blacklist_checked', 'third_or_later_value_of_a_header', 'ctl_rejected', 'clean_accepted_and_roundtripped', 'non_ascii_roundtripped', 'multi_value_order_checked', 'blacklist_204',
+REQUIRED = ['units_run_under_python_-O', 'length_sweep_cases', 'header_lists_compared_with_model', 'header_reads_compared', 'multi_valued_blacklist_checked', 'third_or_later_value_of_a_header', 'ctl_rejected', 'clean_accepted_and_roundtripped', 'non_ascii_roundtripped', 'multi_value_order_checked', 'blacklist_204',
             'blacklist_304', 'statuses_checked', 'wsgi_emissions', 'entry_setitem', 'entry_append', 'entry_setdefault', 'entry_attr',
             'entry_ctor_dict', 'entry_ctor_pairs', 'entry_ctor_iterable', 'response_inspected_after_a_rejection', 'entry_more_headers', 'entry_httperror_options', 'non_str_types']
 ASSUMPTIONS = ['header names are ASCII tokens (the statement speaks of values)',
@@ -479,6 +479,105 @@ def wsgi_unit(ctx, unit):
             ctx.sample({'in_handler': how, 'name': n, 'value': v, 'status': r.status, 'wire': emitted_for(r.headers, real)})
 
 
+def ops_unit(ctx, unit):
+    """Random sequences of header operations on one response beside a plain model (dict name -> list of values, insertion order):
+    what is emitted is what the model holds, one line per value in order, whatever mix of setters, deletions and copies produced it.
+    Hostile values are offered in between; each must be refused and leave no trace."""
+    from ombott.response import Response, HTTPResponse
+    rng = ctx.rng
+    names = ['X-A', 'X-B', 'Vary', 'Link', 'X-C']
+    for si in range(unit['n']):
+        r = HTTPResponse('b') if si % 2 else Response()
+        model = {}
+        hist = []
+        for step in range(rng.randint(3, 16)):
+            n = rng.choice(names)
+            v = rng.choice(TEXTS) if rng.random() < 0.7 else rng.choice([7, 2.5, True, None])
+            sv = str(v)
+            op = rng.choice(['set', 'append', 'append', 'setdefault', 'del', 'clear_name', 'pop', 'hostile', 'copy', 'reads', 'clear_all', 'update_clean', 'headers_copy'])
+            hist.append((op, n, repr(v)))
+            try:
+                if op == 'set':
+                    r.headers[n] = v
+                    model[n] = [sv]
+                elif op == 'append':
+                    r.headers.append(n, v)
+                    model.setdefault(n, []).append(sv)
+                elif op == 'setdefault':
+                    r.headers.setdefault(n, v)
+                    model.setdefault(n, [sv])
+                elif op == 'del':
+                    if n in model:
+                        del r.headers[n]
+                        del model[n]
+                elif op == 'clear_name':
+                    r.headers.clear(n)
+                    model.pop(n, None)
+                elif op == 'clear_all':
+                    if rng.random() < 0.3:
+                        r.headers.clear()
+                        model.clear()
+                elif op == 'pop':
+                    r.headers.pop(n, None)
+                    model.pop(n, None)
+                elif op == 'update_clean':
+                    r.headers.update({n: sv})
+                    model[n] = [sv]
+                elif op == 'hostile':
+                    bad = sv + rng.choice(CTL) + 'Set-Cookie: x=1'
+                    how = rng.choice(['set', 'append', 'setdefault'])
+                    try:
+                        if how == 'set':
+                            r.headers[n] = bad
+                        elif how == 'append':
+                            r.headers.append(n, bad)
+                        else:
+                            r.headers.setdefault(n, bad)
+                        if not (how == 'setdefault' and n in model):
+                            ctx.violation(f'control-character-accepted:{how}', f'history {hist}', {'unit': {'kind': 'note', 'history': hist}})
+                            break
+                    except ValueError:
+                        ctx.count('ctl_rejected')
+                elif op == 'headers_copy':
+                    hd = r.headers.copy()
+                    before = {k: (list(x) if isinstance(x, list) else x) for k, x in hd.items()}
+                    want_items = {k: (vs[0] if len(vs) == 1 else list(vs)) for k, vs in model.items()}
+                    if before != want_items:
+                        ctx.violation('headers.copy()-differs-from-model', f'history {hist}: copy {before}, model {want_items}', {'unit': {'kind': 'note', 'history': hist}})
+                        break
+                    hd.append(n, 'only-in-the-copy')     # the copy is independent: the response must not change (checked below)
+                    hd['X-New'] = 'only-in-the-copy'
+                elif op == 'copy':
+                    r2 = r.copy(HTTPResponse)
+                    r2.headers.append(n, 'only-in-the-copy')
+                    if n in model and len(model[n]) > 1 and rng.random() < 0.5:
+                        r = r2      # go on with the copy: it is a response like any other
+                        model.setdefault(n, []).append('only-in-the-copy')
+                else:
+                    ctx.count('header_reads_compared')
+                    got = (n in r.headers, len(r.headers), list(r.headers), r.headers.get(n))
+                    want_get = None if n not in model else (model[n][0] if len(model[n]) == 1 else model[n])
+                    if got != (n in model, len(model), list(model), want_get):
+                        ctx.violation('header-reads-differ-from-model', f'history {hist}: in/len/iter/get = {got}, model {model}', {'unit': {'kind': 'note', 'history': hist}})
+                        break
+            except Exception as e:  # noqa
+                ctx.violation(f'header-operation-raises-{type(e).__name__}', f'history {hist}: {e!r}', {'unit': {'kind': 'note', 'history': hist}})
+                break
+            hl = r.headerlist
+            em = [(k, val.encode('latin1').decode('utf8')) for k, val in hl if k in names or k == 'X-New']
+            want = [(k, x) for k, vs in model.items() for x in vs]
+            ctx.count('header_lists_compared_with_model')
+            ctx.case(('ops', si, step), nontrivial=True)
+            if em != want:
+                ctx.violation('emitted-headers-differ-from-model', f'history {hist}: emitted {em}, model {want}', {'unit': {'kind': 'note', 'history': hist}})
+                break
+            if any(has_ctl(val) for _, val in hl):
+                ctx.violation('control-character-emitted', f'history {hist}', {'unit': {'kind': 'note', 'history': hist}})
+                break
+        if si % 400 == 0:
+            ctx.sample({'operation_history': hist[:8], 'model': {k: v[:3] for k, v in model.items()}})
+
+
 def length_unit(ctx, unit):
     """Every value length 1..N (and lengths around powers of two) x control character x position x setter: the guard does not depend on
     how long the value is.  Clean values of the same lengths must be emitted unchanged."""
@@ -527,9 +626,9 @@ def length_unit(ctx, unit):
 def plan(tier, seed):
     if tier == 'quick':
         return ([{'kind': 'setter', 'n': 4000, 'sub': i} for i in range(4)] + [{'kind': 'multi', 'n': 1500}, {'kind': 'status'},
-                {'kind': 'wsgi', 'n': 3000}, {'kind': 'length', 'upto': 300}])
+                {'kind': 'wsgi', 'n': 3000}, {'kind': 'length', 'upto': 300}, {'kind': 'ops', 'n': 1500}])
     return ([{'kind': 'setter', 'n': 50000, 'sub': i} for i in range(16)] + [{'kind': 'multi', 'n': 20000, 'sub': i} for i in range(4)]
-            + [{'kind': 'status'}] + [{'kind': 'wsgi', 'n': 25000, 'sub': i} for i in range(8)] + [{'kind': 'length', 'upto': 2100}])
+            + [{'kind': 'status'}] + [{'kind': 'wsgi', 'n': 25000, 'sub': i} for i in range(8)] + [{'kind': 'length', 'upto': 2100}] + [{'kind': 'ops', 'n': 20000, 'sub': i} for i in range(4)])
 
 
 def run_unit(ctx, unit):
@@ -544,5 +643,7 @@ def run_unit(ctx, unit):
         wsgi_unit(ctx, unit)
     elif k == 'length':
         length_unit(ctx, unit)
+    elif k == 'ops':
+        ops_unit(ctx, unit)
     elif k == 'note':
         print('  witness (re-run the tier to re-evaluate):', unit)
